@@ -213,8 +213,19 @@ pub fn k_rsdpv2_checksum_any_length() {
     kani::assume(le32(b, 28) <= 96);
     let tag = v2_from(b);
     let valid = tag.checksum_is_valid();
-    assert!(valid == (sum8(b, 8, 44) == 0));
+    // ACPI: the extended checksum covers `length` bytes of the RSDP.  The tag
+    // embeds 36 of them; a spec-conformant tag has length == 36 (C04).  A longer
+    // length cannot be validated from the tag and must not be read (C01).
+    let len = le32(b, 28) as usize;
+    if len == 36 {
+        assert!(valid == (sum8(b, 8, 44) == 0));
+    } else if len > 36 {
+        assert!(!valid);
+    } else {
+        assert!(valid == (sum8(b, 8, 8 + len) == 0));
+    }
     kani::cover!(le32(b, 28) == 96);
+    kani::cover!(le32(b, 28) == 36 && valid);
 }
 
 // ---- C04: v2 string accessors: Ok(s) => s is exactly the field's bytes (in place);
